@@ -6,7 +6,9 @@ import (
 	"os"
 	"os/exec"
 	"path/filepath"
+	"runtime"
 	"strings"
+	"sync/atomic"
 	"syscall"
 	"time"
 )
@@ -49,6 +51,12 @@ func WorkerArg() string { return os.Getenv("VERIF_WORKER_ARG") }
 func (c *Ctx) LogInput(v any) {
 	if workerOut == "" {
 		return
+	}
+	if HangSeen() {
+		// a call of the code under test is still spinning on its goroutine: hand over what
+		// was observed (the hang has been reported by its caller) and end this worker
+		c.Inconclusive("worker-ended-early-after-a-hang", 1)
+		c.Finish()
 	}
 	b, _ := json.Marshal(v)
 	_ = os.WriteFile(workerOut+".last", b, 0o644)
@@ -200,6 +208,46 @@ func firstFatalLine(out string) string {
 		}
 	}
 	return "unknown"
+}
+
+// Hang is what CatchHang returns when f did not come back in time.
+type Hang struct {
+	After  time.Duration
+	Stacks string
+}
+
+func (h Hang) String() string {
+	return fmt.Sprintf("hang: the call did not return within %s", h.After)
+}
+
+var hangSeen atomic.Bool
+
+// HangSeen reports whether a CatchHang call of this process ran into its watchdog. The
+// goroutine of that call is still running (it cannot be stopped), so a worker should
+// finish soon afterwards; LogInput does that on its next call.
+func HangSeen() bool { return hangSeen.Load() }
+
+// CatchHang is Catch for calls that may loop for ever on a hostile input (parsers): f runs
+// on a goroutine of its own; a panic is returned as by Catch, and if f has not returned
+// after wd a Hang value (with the stacks of all goroutines) is returned instead. wd must
+// be generous: it is a verdict only for calls that normally take microseconds.
+func CatchHang(f func(), wd time.Duration) (p any) {
+	done := make(chan any, 1)
+	go func() {
+		defer func() { done <- recover() }()
+		f()
+	}()
+	t := time.NewTimer(wd)
+	defer t.Stop()
+	select {
+	case r := <-done:
+		return r
+	case <-t.C:
+		hangSeen.Store(true)
+		buf := make([]byte, 1<<18)
+		buf = buf[:runtime.Stack(buf, true)]
+		return Hang{After: wd, Stacks: string(buf)}
+	}
 }
 
 // Catch runs f and converts a Go panic into a returned description (nil if none).
